@@ -121,6 +121,12 @@ CHECKS = {
                      'deep model chains included), exceptions are violations', ref='8/C18',
                 note='trusted base: the reference resolver of monitors/c18_rules.py (documentation reading stated '
                      'in its ASSUMPTIONS)'),
+    'C19': dict(engine=ENGINE_L3, technique='runtime monitoring: non-interference oracle (full status snapshot of every '
+                'instance, queued messages and emission counters before / after 1-5 predictions) and comparison of the '
+                'predicted placement with the start requests recorded when the real start is then issued from the same '
+                'situation in the same run',
+                text='held on every prediction round observed, except the listed known finding (multi-process wildcard '
+                     'start_process is not one plan)', ref='8/C19', note=TRUST_L3),
     'C20': dict(engine=ENGINE_L1, technique='runtime monitoring: structural invariant walked after every push of '
                 'generated sample streams into the real statistics compilers, with a shadow period gate',
                 text='held after every push: bounded, aligned, period-gated, CPU and I/O ranges, stopped process '
